@@ -319,7 +319,16 @@ def veq(a, b):
         ta = (a.vec if isinstance(a, SliceRef) else a).text; tb = (b.vec if isinstance(b, SliceRef) else b).text
         if ta is not None or tb is not None:
             if ta is not None and tb is not None: return str_eq(ta, tb)
-            raise Unmodelled('comparison of text-backed bytes with plain bytes')
+            # one side is structured text, the other plain bytes: compare as text when the plain side is concrete UTF-8
+            plain = (b if ta is not None else a)
+            cells = plain.vec.cells if isinstance(plain, SliceRef) else plain.cells
+            if all(not is_sym(c.v) for c in cells):
+                try:
+                    txt = RStr(bytes(int(c.v) for c in cells).decode('utf-8'))
+                    return str_eq(ta if ta is not None else txt, tb if tb is not None else txt)
+                except UnicodeDecodeError:
+                    return False
+            raise Unmodelled('comparison of text-backed bytes with symbolic plain bytes')
         ca = a.vec.cells if isinstance(a, SliceRef) else a.cells
         cb = b.vec.cells if isinstance(b, SliceRef) else b.cells
         if len(ca) != len(cb): return False
